@@ -377,3 +377,52 @@ func c18NilArgs(r *harness.Run) {
 		}
 	}
 }
+
+// c18NilInsert — table.insert(t, pos, nil) shifts t[pos..n] up and leaves a nil at pos (ltablib.c
+// tinsert moves the elements and then sets t[pos] = nil value like any other). Lengths are not
+// judged afterwards (the table has a hole); the raw content of positions 1..n+2 is.
+func c18NilInsert(r *harness.Run) {
+	L := lua.NewState()
+	defer L.Close()
+	for n := 1; n <= 5; n++ {
+		for pos := 1; pos <= n; pos++ {
+			for _, via := range []string{"table.insert", "LTable.Insert"} {
+				var src string
+				if via == "table.insert" {
+					src = fmt.Sprintf(`local t = {} for i = 1, %d do t[i] = i * 10 end table.insert(t, %d, nil) local s = "" for i = 1, %d do s = s .. tostring(rawget(t, i)) .. "," end return s`, n, pos, n+2)
+				} else {
+					src = fmt.Sprintf(`local t = {} for i = 1, %d do t[i] = i * 10 end goinsert(t, %d) local s = "" for i = 1, %d do s = s .. tostring(rawget(t, i)) .. "," end return s`, n, pos, n+2)
+				}
+				L.SetGlobal("goinsert", L.NewFunction(func(L *lua.LState) int {
+					L.CheckTable(1).Insert(L.CheckInt(2), lua.LNil)
+					return 0
+				}))
+				want := ""
+				for i := 1; i <= n+2; i++ {
+					switch {
+					case i < pos:
+						want += fmt.Sprint(i*10) + ","
+					case i == pos:
+						want += "nil,"
+					case i <= n+1:
+						want += fmt.Sprint((i-1)*10) + ","
+					default:
+						want += "nil,"
+					}
+				}
+				sig := fmt.Sprintf("nilinsert/%s/n=%d/pos=%d", via, n, pos)
+				r.Eval(sig, true, func() interface{} { return map[string]interface{}{"case": "insert of nil", "n": n, "pos": pos, "via": via} })
+				if err := L.DoString(src); err != nil {
+					r.Violation("nilinsert/"+via+"/error", fmt.Sprintf("%s of nil at position %d of a %d-element list raised: %v", via, pos, n, err), map[string]interface{}{"source": src})
+					L.SetTop(0)
+					continue
+				}
+				got := L.Get(1).String()
+				L.SetTop(0)
+				if got != want {
+					r.Violation("nilinsert/"+via+"/content", fmt.Sprintf("%s of nil at position %d of {10..%d}: positions 1..%d hold %s, expected %s", via, pos, n*10, n+2, got, want), map[string]interface{}{"source": src})
+				}
+			}
+		}
+	}
+}
